@@ -136,7 +136,7 @@ def truncate (c : Chunk) (n : Int) : Chunk × Option Err :=
 
 /-- `Read(b)` with `len(b) = k` : (chunk, bytes read, err) -/
 def read (c : Chunk) (k : Nat) : Chunk × Bytes × Option Err :=
-  if c.isEmpty ∧ ¬ c.isNil then
+  if c.isEmpty then
     (c.reset, [], if k = 0 then none else some .eof)
   else
     let got := c.unread.take k
